@@ -32,6 +32,7 @@
 #include <stdio.h>
 #include <stdlib.h>
 #include <string.h>
+#include <sys/stat.h>
 
 #include <unistd.h>
 #include <limits.h>
@@ -266,24 +267,67 @@ char * etcLdSoPreload_readFile ()
 void etcLdSoPreload_writeFile (char * newContent)
 {
     const char * filePath;
+    char * tmpFilePath;
+    size_t tmpFilePathSize;
 
     filePath = etcLdSoPreload_getFilePath();
 
-    FILE * fileHandle = fopen(filePath, "w+");
+    /*
+     * Never write to ld.so.preload directly: if this process got interrupted
+     * (or the disk got full) half-way through, the dynamic loader would be
+     * reading an empty or truncated file. Write the new content to a temporary
+     * file in the same directory instead, and atomically rename() it over the
+     * original once it has been stored completely.
+     */
+    tmpFilePathSize = strlen(filePath) + strlen(".snoopy-tmp") + 1;
+    tmpFilePath     = malloc(tmpFilePathSize);
+    if (tmpFilePath == NULL) {
+        fatalError("Unable to malloc() for the temporary file path.");
+    }
+    snprintf(tmpFilePath, tmpFilePathSize, "%s.snoopy-tmp", filePath);
+
+    FILE * fileHandle = fopen(tmpFilePath, "w");
     if (fileHandle == NULL) {
         printDiagValue("ld.so.preload path", filePath);
         printDiagValue("Error message", strerror(errno));
+        free(tmpFilePath);
         fatalError("Unable to open file for writing (missing sudo, maybe?).");
+    }
+
+    // Keep the permissions of the file being replaced (best effort)
+    struct stat origFileStat;
+    if (stat(filePath, &origFileStat) == 0) {
+        fchmod(fileno(fileHandle), origFileStat.st_mode & 07777);
     }
 
     if (fprintf(fileHandle, "%s", newContent) < 0) {
         printDiagValue("ld.so.preload path", filePath);
         printDiagValue("Error message", strerror(errno));
+        fclose(fileHandle);
+        unlink(tmpFilePath);
+        free(tmpFilePath);
         fatalError("Unable to write to file.");
     }
 
-    fclose(fileHandle);
+    if (fclose(fileHandle) != 0) {
+        printDiagValue("ld.so.preload path", filePath);
+        printDiagValue("Error message", strerror(errno));
+        unlink(tmpFilePath);
+        free(tmpFilePath);
+        fatalError("Unable to write to file.");
+    }
+
+    if (rename(tmpFilePath, filePath) != 0) {
+        printDiagValue("ld.so.preload path", filePath);
+        printDiagValue("Error message", strerror(errno));
+        unlink(tmpFilePath);
+        free(tmpFilePath);
+        fatalError("Unable to replace the file with its new content.");
+    }
+
+    free(tmpFilePath);
 }
+
 
 
 const char * etcLdSoPreload_findEntry (const char * content, const char * entry)
